@@ -151,7 +151,7 @@ func (tb *TB) Of(v ssa.Value, env *Env) *Term {
 		return &Term{Op: "un:" + x.Op.String(), Args: []*Term{tb.Of(x.X, env)}, Val: v}
 	case *ssa.FieldAddr:
 		_, name, _ := FieldName(x)
-		return &Term{Op: "addr", Args: []*Term{{Op: "field:" + name, Args: []*Term{tb.Of(x.X, env)}, Val: v}}, Val: v}
+		return &Term{Op: "addr", Args: []*Term{{Op: "field:" + name, Args: []*Term{tb.base(x.X, env)}, Val: v}}, Val: v}
 	case *ssa.Field:
 		_, name, _ := FieldName(x)
 		return &Term{Op: "field:" + name, Args: []*Term{tb.Of(x.X, env)}, Val: v}
@@ -209,6 +209,17 @@ func (tb *TB) Of(v ssa.Value, env *Env) *Term {
 		return leaf("builtin:"+x.Name(), v)
 	}
 	return leaf(fmt.Sprintf("?%T", v), v)
+}
+
+// base returns the term of the object a field/index address is taken from:
+// address-of wrappers of nested field chains are dropped (x.a.b reads as
+// field:b(field:a(x)) whether a is embedded by value or reached by pointer).
+func (tb *TB) base(v ssa.Value, env *Env) *Term {
+	t := tb.Of(v, env)
+	if t.Op == "addr" && len(t.Args) == 1 {
+		return t.Args[0]
+	}
+	return t
 }
 
 func (tb *TB) terms(vs []ssa.Value, env *Env) []*Term {
@@ -286,9 +297,9 @@ func (tb *TB) load(u *ssa.UnOp, env *Env) *Term {
 			// a struct-typed local that was assigned as a whole: the field of the stored value
 			return &Term{Op: "field:" + name, Args: []*Term{tb.allocValue(al, al, env)}, Val: u}
 		}
-		return &Term{Op: "field:" + name, Args: []*Term{tb.Of(a.X, env)}, Val: u}
+		return &Term{Op: "field:" + name, Args: []*Term{tb.base(a.X, env)}, Val: u}
 	case *ssa.IndexAddr:
-		return &Term{Op: "index", Args: []*Term{tb.Of(a.X, env), tb.Of(a.Index, env)}, Val: u}
+		return &Term{Op: "index", Args: []*Term{tb.base(a.X, env), tb.Of(a.Index, env)}, Val: u}
 	case *ssa.Global:
 		return leaf("global:"+a.Pkg.Pkg.Path()+"."+a.Name(), u)
 	case *ssa.Alloc:
